@@ -485,6 +485,9 @@ def authorized (r : Req) : Bool := !r.creds || r.auth == .right
 /-- a CORS preflight -/
 def preflight (r : Req) : Bool := r.pf && r.method == "OPTIONS"
 
+/-- a layer of the handler chain, by name -/
+abbrev Layer := String
+
 /-- layers by name, outermost first; the chain ends with "router" -/
 def serve : List String → List Route → Req → Resp
   | [], _, _ => unmodelled
